@@ -518,7 +518,7 @@ def run_jobs(jobs, profile, gbin, gmodel, rng, tier, stats):
             return
         cls = classify(j, j.tuples[i], j.impl[i], j.spec[i])
         info = {"function": j.expr, "types": [c[1] for c in j.cols], "context": ctx, "profile": profile, "args": list(j.tuples[i]),
-                "engine": eng, "definition": spec, "stmts": replay_of(j, i, ctx)}
+                "engine": eng, "definition": (j.spec[i] if j.kind == "float" else spec), "stmts": replay_of(j, i, ctx)}
         if cls is None:
             viol.append(dict(info, kind="deviates-from-definition"))
         else:
